@@ -316,7 +316,7 @@ def gen_complex(r, depth, customs, bare, pool=DEFAULT_POOL):
 def gen_composed(r, pool):
     """-> (selector list AST, {':--name': selector list AST}, where the prefixes live)."""
     pfxs = pool['pfx']
-    if pool.get('els') and r.random() < 0.16:
+    if pool.get('els') and r.random() < 0.24:
         # a chain read off an actual ancestor path: 3-5 compounds, mostly WITHOUT a type selector — under a map with a default
         # entry every one of them carries an implied universal that must be in the default namespace, however far left it is
         w = r.choice(pool['els'])
